@@ -39,6 +39,14 @@ from harness.realise import Realised, Unrepresentable  # noqa: E402
 
 assert cattrs.__file__.startswith(os.environ.get("CATTRS_SRC", "/repo/src")), cattrs.__file__
 
+class _Unrelated:
+    pass
+
+
+class _Unrelated2:
+    pass
+
+
 TAG_NAMES = ["_type", "type", "kind", "t", "_"]
 UNKNOWN_TAGS = [("s", "Zz"), ("i", 99), ("N",), ("b", True), ("s", ""), ("f", 3), ("t", [("i", 1)])]
 UNHASHABLE_TAGS = [("l", []), ("d", []), ("l", [("s", "A")]), ("t", [("l", [])])]
@@ -115,6 +123,14 @@ class Scenario:
             configure_tagged_union(self.U, self.conv, tag_name=self.tag_name, **kw)
         except Exception as e:  # noqa: BLE001
             self.configure_error = e
+        # unrelated registrations made AFTER the strategy was applied (half of the cases, derived from the
+        # configuration so that a replay repeats them) must not disturb it: "member hooks untouched" cuts both ways
+        if (len(self.tag_name) + len(self.members) + (self.default or 0)) % 2 == 0:
+            for c in (self.conv, self.fresh):
+                c.register_unstructure_hook(_Unrelated, lambda v: "unrelated")
+                c.register_structure_hook(_Unrelated, lambda v, _: _Unrelated())
+                c.register_unstructure_hook_func(lambda t: t is _Unrelated2, lambda v: "unrelated2")
+                c.register_structure_hook_factory(lambda t: t is _Unrelated2, lambda t: (lambda v, _: _Unrelated2()))
 
     # ---- model side
     def tu_sx(self):
